@@ -57,4 +57,27 @@ extern int32_t g_k;
     __CPROVER_loop_invariant(0 <= p && p <= kpl && bad == 0 && n_calls == p && last == p - 1) \
     __CPROVER_loop_invariant(n_watched == ((p) > g_i ? 1 : 0)) \
     __CPROVER_decreases(kpl - p)
+/* tLweKeyGen: k polynomials of N coefficients, one draw from {0,1} each (k = VERIF_K enumerated, N symbolic) */
+extern int32_t g_i;
+#define LOOP_tLweKeyGen_0(i) \
+    __CPROVER_assigns(i, __CPROVER_object_whole(result->key[0].coefs), TLWEKG_MORE g_n_uniform_int, g_rng_touched, g_ui_lo, g_ui_hi) \
+    __CPROVER_loop_invariant(0 <= i && i <= k) \
+    __CPROVER_loop_invariant(g_n_uniform_int == LENTRY(g_n_uniform_int) + (i) * N) \
+    __CPROVER_loop_invariant((i) > g_i ==> (result->key[g_i].coefs[g_k] == 0 || result->key[g_i].coefs[g_k] == 1)) \
+    __CPROVER_loop_invariant((i) > 0 ==> (g_ui_lo == distribution.lo && g_ui_hi == distribution.hi)) \
+    __CPROVER_decreases(k - i)
+#define LOOP_tLweKeyGen_1(j) \
+    __CPROVER_assigns(j, __CPROVER_object_whole(result->key[i].coefs), g_n_uniform_int, g_rng_touched, g_ui_lo, g_ui_hi) \
+    __CPROVER_loop_invariant(0 <= j && j <= N) \
+    __CPROVER_loop_invariant(g_n_uniform_int == LENTRY(g_n_uniform_int) + j) \
+    __CPROVER_loop_invariant(((i) == g_i && (j) > g_k) ==> (result->key[g_i].coefs[g_k] == 0 || result->key[g_i].coefs[g_k] == 1)) \
+    __CPROVER_loop_invariant(((i) > 0 || (j) > 0) ==> (g_ui_lo == distribution.lo && g_ui_hi == distribution.hi)) \
+    __CPROVER_decreases(N - j)
+#if VERIF_K >= 3
+#define TLWEKG_MORE __CPROVER_object_whole(result->key[1].coefs), __CPROVER_object_whole(result->key[2].coefs),
+#elif VERIF_K == 2
+#define TLWEKG_MORE __CPROVER_object_whole(result->key[1].coefs),
+#else
+#define TLWEKG_MORE
+#endif
 #endif
